@@ -301,7 +301,6 @@ func (p *printer) literalText(s string) string {
 	}
 	var sb strings.Builder
 	sb.WriteByte(q)
-	afterBackslash := false // the previous piece was the escape `\\`
 	numeric := func(b byte) string {
 		if p.r.Bool() {
 			if p.r.Bool() {
@@ -318,7 +317,10 @@ func (p *printer) literalText(s string) string {
 		if b >= 0x80 {
 			r, n := utf8.DecodeRuneInString(s[i:])
 			if r == utf8.RuneError && n == 1 {
-				piece = numeric(b) // never a raw ill-formed byte in the main stream
+				piece = numeric(b)
+				if p.r.Bool() {
+					piece = string([]byte{b}) // a raw ill-formed byte is kept as it is (the former D65 shape)
+				}
 			} else {
 				size = n
 				switch k := p.r.Intn(6); {
@@ -340,21 +342,11 @@ func (p *printer) literalText(s string) string {
 			case b == '\\':
 				piece = []string{`\\`, `\\`, `\\`, numeric(b)}[p.r.Intn(4)]
 			case b == q:
-				piece = "\\" + string(q)
-				if q == '"' && p.r.Chance(1, 3) {
-					piece = numeric(b)
-				}
+				piece = []string{"\\" + string(q), "\\" + string(q), numeric(b)}[p.r.Intn(3)]
 			case b == other:
-				// raw is fine unless it would follow an escaped backslash (that is D16);
-				// inside '…' a quote character written numerically comes out swapped (D66)
-				choices := []string{"\\" + string(other)}
-				if q == '"' {
-					choices = append(choices, numeric(b))
-				}
-				if !afterBackslash {
-					choices = append(choices, string(other), string(other))
-				}
-				piece = choices[p.r.Intn(len(choices))]
+				// raw, escaped or numeric — also directly after an escaped backslash (the former D16
+				// shape) and numerically inside '…' (the former D66 shape)
+				piece = []string{"\\" + string(other), numeric(b), string(other), string(other)}[p.r.Intn(4)]
 			case b == '\n':
 				piece = []string{`\n`, `\n`, numeric(b)}[p.r.Intn(3)]
 			case named[b] != "":
@@ -371,7 +363,6 @@ func (p *printer) literalText(s string) string {
 				}
 			}
 		}
-		afterBackslash = piece == `\\`
 		sb.WriteString(piece)
 		i += size
 	}
